@@ -150,7 +150,9 @@ def run(ctx):
                 ctx.fail("ParamPath %s %s" % (fe_kind(fe), c), "%s with -@%s.%s: lines %s, the integrator path reports %s" % (fe, c, p, res, want), {"frontend": fe, "checker": c})
 
     st, tr = vlib.tlc_states_total(ctx)
+    reconf = reconfigure(ctx, design)
     cov = {
+        "reconfiguration": reconf,
         "states": st, "transitions": tr, "traces_validated_against_impl": evaluated + runs,
         "override_checks": evaluated, "binary_runs": runs, "sizes_compared": sizes, "design": design, "exhaustive": False,
         "samples": [{"checker": "hugeParam", "m": 3, "n": 3, "reported": table["hugeParam"][(3, 3)]}, {"checker": "tooManyResultsChecker", "m": 3, "n": 3, "reported": table["tooManyResultsChecker"][(3, 3)]}],
@@ -158,6 +160,64 @@ def run(ctx):
     }
     return ctx.finish("model_checking", cov, ["ifElseChain / commentedOutCode: the wording does not fix the boundary, only monotone single-step behaviour is required",
                                               "unnamedResult.checkExported: only 'takes effect' is required (observation: false checks all functions, true only exported ones)"])
+
+
+RCFG = """SPECIFICATION Spec
+CONSTANTS
+  Runs = 3
+  AssignEveryRun = %s
+INVARIANTS UsedIsConfiguredNow
+CHECK_DEADLOCK FALSE
+"""
+
+
+def reconfigure(ctx, design):
+    """ParamsReconf.tla: a program embedding the analysis front-end re-configures it between runs of one process; every run must
+    use the values configured for it. Binding: `vh analyze -seq` sets the flags before every run (analyzer.DisableCache on, or the
+    cached configuration dropped between runs); the diagnostics of run k must equal those of a process that only ever saw the
+    effective values of run k."""
+    from props import analyzer_common as ac
+    from props import ws as wsmod
+    design["reconf_states"] = ctx.tlc("ParamsReconf", cfg_text=RCFG % "TRUE", workers=2, timeout=300, deadlock=True, expect="ok").distinct
+    design["whatif_assign_once"] = ctx.tlc("ParamsReconf", cfg_text=RCFG % "FALSE", workers=2, timeout=300, deadlock=True, expect="violation").violated
+    w = wsmod.make(ctx, "ws_c14seq", 2, pick=["hugeParam", "tooManyResultsChecker"])
+    base = "enable=hugeParam,tooManyResultsChecker;disable="
+    vals = {"default": "", "v1": ";@hugeParam.sizeThreshold=8;@tooManyResultsChecker.maxResults=1", "v2": ";@hugeParam.sizeThreshold=100000;@tooManyResultsChecker.maxResults=50"}
+
+    def diags(res, k):
+        run = res["runs"][k]
+        if run.get("panic") or run.get("errors"):
+            raise vlib.Infra("analyzer run failed: %s" % (run.get("panic") or run.get("errors")))
+        return sorted((d["pos"], d["msg"]) for d in run.get("diags") or [])
+    ref = {}
+    for name, fl in vals.items():
+        rr, res = ac.analyze(ctx, w["dir"], flags=base + fl, tests=False)
+        if res is None:
+            raise vlib.Infra("reference analyzer run failed: " + rr.stderr[-800:])
+        ref[name] = diags(res, 0)
+    if len({json.dumps(v) for v in ref.values()}) < 3:
+        raise vlib.Infra("the three parameter settings do not give three different sets of diagnostics: %s" % {k: len(v) for k, v in ref.items()})
+    seqs = [("v1", "v2", "v1"), ("v2", "v1", "notGiven"), ("notGiven", "v1", "v2"), ("v2", "notGiven", "v1")]
+    n = 0
+    for mode in ("disable-cache", "fresh-config"):
+        for seq in seqs:
+            outp = ctx.path("an", "seq_%d.json" % n)
+            args = ["analyze", "-dir", w["dir"], "-out", outp, "-tests=false", "-seq", "|".join(base + vals.get(g, "") for g in seq)]
+            if mode == "disable-cache":
+                args.append("-disable-cache")
+            r = ctx.run_vh(args, check=False, timeout=900)
+            if not os.path.exists(outp):
+                raise vlib.Infra("vh analyze -seq failed: " + r.stderr[-800:])
+            res = json.load(open(outp))
+            eff = "default"
+            for k, g in enumerate(seq):
+                eff = eff if g == "notGiven" else g
+                n += 1
+                got = diags(res, k)
+                if got != ref[eff]:
+                    ctx.fail("ReconfigurationIgnored %s" % mode, "analysis front-end, %s, run %d of the sequence %s in one process: %d diagnostics, a process configured with %s from the start reports %d (e.g. %s)"
+                             % (mode, k + 1, list(seq), len(got), eff, len(ref[eff]), sorted(set(got) ^ set(ref[eff]))[:2]), {"sequence": list(seq), "run": k + 1, "mode": mode})
+    return {"runs_compared": n, "reference_diagnostics": {k: len(v) for k, v in ref.items()}}
 
 
 def fe_kind(fe):
